@@ -581,6 +581,90 @@ def has_call_cycle(prog):
     return any(dfs(n) for n in graph)
 
 
+def with_big_stack(fn, limit=120000, stack_mb=1024):
+    """run fn in a thread with a large C stack and a large Python recursion limit"""
+    import sys
+    import threading
+
+    box = {}
+
+    def target():
+        old = sys.getrecursionlimit()
+        sys.setrecursionlimit(limit)
+        try:
+            box["r"] = fn()
+        except RecursionError:
+            box["r"] = {"run_exc": "RecursionError"}
+        except BaseException as ex:  # noqa: BLE001
+            box["r"] = {"run_exc": type(ex).__name__, "run_exc_msg": str(ex)[:200]}
+        finally:
+            sys.setrecursionlimit(old)
+
+    old_size = threading.stack_size()
+    try:
+        threading.stack_size(stack_mb * 1024 * 1024)
+        t = threading.Thread(target=target)
+        t.start()
+        t.join()
+    finally:
+        threading.stack_size(old_size)
+    return box.get("r", {"run_exc": "RecursionError"})
+
+
+def drive_accepted(prog, text, rseed):
+    """one deterministic run of an accepted program: typed values, random completion order"""
+    import impl
+
+    rng = random.Random(rseed)
+    rec = {}
+    structs = {s["name"]: s for s in prog["structs"]}
+    tm = {t["name"]: t for t in prog["tasks"]}
+    nq = [0]
+
+    def answers(name, ctx):
+        nq[0] += 1
+        t = tm.get(ctx.task.name) if ctx is not None else None
+        ty = None
+        if t:
+            for x, xt in t.get("ins", []):
+                if x == name:
+                    ty = xt
+            for st in progs.walk(t["body"]):
+                calls = [st] if st["k"] in ("svc", "call") else st.get("calls", []) if st["k"] == "par" else [st["call"]] if st["k"] == "ploop" and st.get("call") else []
+                for c in calls:
+                    for x, xt in c.get("outs", []) or []:
+                        if x == name:
+                            ty = xt
+        v = typed_value(rng, ty or "number", structs)
+        if nq[0] > 60:
+            v = falsify(v)
+        return v
+
+    imm_bits = [rng.random() < 0.3 for _ in range(5)]
+    other_bits = [rng.random() < 0.5 for _ in range(4)] if rng.random() < 0.3 else [False]
+    run = impl.Run(text, ids="test", answers=answers, imm=lambda k: imm_bits[k % 5],
+                   imm_other=lambda k: other_bits[k % len(other_bits)])
+    rec["ctor_exc"] = run.ctor_exc
+    if run.s is None:
+        return rec
+    for k in ("ts", "ss", "sf", "tf"):
+        run.register(k, 0)
+    c = run.start()
+    n = 0
+    exc = c.get("exc")
+    while run.pending and n < 80 and not exc:
+        c = run.complete(rng.choice(run.pending))
+        exc = c.get("exc")
+        n += 1
+    rec["run_exc"] = exc
+    rec["run_exc_msg"] = c.get("exc_msg")
+    rec["finished"] = bool(run.calls and run.calls[-1].get("final_marking"))
+    rec["pending"] = len(run.pending)
+    rec["steps"] = n
+    rec["queries"] = nq[0]
+    return rec
+
+
 def job_run_accepted(args):
     """drive an accepted program to the end with well-typed values and a random completion order"""
     import impl
@@ -610,52 +694,28 @@ def job_run_accepted(args):
         if rec["call_cycle"]:
             signal.alarm(0)
             return rec
-        structs = {s["name"]: s for s in prog["structs"]}
-        tm = {t["name"]: t for t in prog["tasks"]}
-        nq = [0]
-
-        def answers(name, ctx):
-            nq[0] += 1
-            t = tm.get(ctx.task.name) if ctx is not None else None
-            ty = None
-            if t:
-                for x, xt in t.get("ins", []):
-                    if x == name:
-                        ty = xt
-                for st in progs.walk(t["body"]):
-                    calls = [st] if st["k"] in ("svc", "call") else st.get("calls", []) if st["k"] == "par" else [st["call"]] if st["k"] == "ploop" and st.get("call") else []
-                    for c in calls:
-                        for x, xt in c.get("outs", []) or []:
-                            if x == name:
-                                ty = xt
-            v = typed_value(rng, ty or "number", structs)
-            if nq[0] > 60:
-                v = falsify(v)
-            return v
-
-        imm_bits = [rng.random() < 0.3 for _ in range(5)]
-        other_bits = [rng.random() < 0.5 for _ in range(4)] if rng.random() < 0.3 else [False]
-        run = impl.Run(text, ids="test", answers=answers, imm=lambda k: imm_bits[k % 5],
-                       imm_other=lambda k: other_bits[k % len(other_bits)])
-        rec["ctor_exc"] = run.ctor_exc
-        if run.s is None:
+        rseed = rng.getrandbits(32)
+        if len(text) > 9000:
+            # the scheduler deep-copies every struct literal (with its parse tree) at each start of a service: programs
+            # with many large literals take minutes to construct and run; they are validated but not driven here
+            rec["not_driven_large"] = True
+            rec["valid"] = None
             signal.alarm(0)
             return rec
-        for k in ("ts", "ss", "sf", "tf"):
-            run.register(k, 0)
-        c = run.start()
-        n = 0
-        exc = c.get("exc")
-        while run.pending and n < 80 and not exc:
-            c = run.complete(rng.choice(run.pending))
-            exc = c.get("exc")
-            n += 1
-        rec["run_exc"] = exc
-        rec["run_exc_msg"] = c.get("exc_msg")
-        rec["finished"] = bool(run.calls and run.calls[-1].get("final_marking"))
-        rec["pending"] = len(run.pending)
-        rec["steps"] = n
-        rec["queries"] = nq[0]
+        out = drive_accepted(prog, text, rseed)
+        if out.get("run_exc") == "RecursionError":
+            if any(st["k"] == "wloop" and not list(vgen.expr_paths(st["e"])) for t in prog["tasks"] for st in progs.walk(t["body"])):
+                # a While loop whose guard mentions no variable: if it is true the program never ends, and a body that
+                # starts no service recurses without bound (finding K9: evaluation by recursion)
+                out["k9_constant_guard"] = True
+            else:
+                # finding K9 is about the *depth* of the recursion (it grows with the number of service-free steps):
+                # the same run with a 15 times larger recursion limit tells depth from an unbounded recursion
+                out2 = with_big_stack(lambda: drive_accepted(prog, text, rseed), limit=45000, stack_mb=512)
+                if out2.get("run_exc") != "RecursionError":
+                    out2["k9_depth_only"] = True
+                    out = out2
+        rec.update(out)
         signal.alarm(0)
         return rec
     except CaseTimeout:
@@ -927,12 +987,15 @@ def _run(ctx, pool, res):
         if r.get("timeout"):
             continue
         n_eval += 1
-        lab = r["label"].split(":")[0] + ("/accepted" if r.get("valid") else "/rejected")
+        lab = r["label"].split(":")[0] + ("/not_driven" if r.get("not_driven_large") else "/accepted" if r.get("valid") else "/rejected")
         run_hist[lab] = run_hist.get(lab, 0) + 1
         key = hashlib.sha256(r["text"].encode()).hexdigest()
         distinct.add(key)
         if r.get("exc"):
             add_violation(res, seen, "C16", "raises", "validation raised %s (%s)" % (r["exc"], r["label"]), r["text"])
+            continue
+        if r.get("not_driven_large"):
+            run_hist["not_driven_large_text"] = run_hist.get("not_driven_large_text", 0) + 1
             continue
         if not r.get("valid"):
             continue
@@ -945,8 +1008,13 @@ def _run(ctx, pool, res):
             add_violation(res, seen, "C09", "construction_raises_" + r["ctor_exc"], "accepted program (%s): Scheduler construction raised %s" % (r["label"], r["ctor_exc"]), r["text"], {"label": r["label"]})
         elif r.get("run_exc") == "ZeroDivisionError" and " / " in r["text"]:
             run_hist["known_K11_division_by_zero"] = run_hist.get("known_K11_division_by_zero", 0) + 1
-        elif r.get("run_exc") == "RecursionError" and r.get("queries", 0) + r.get("steps", 0) > 30:
+        elif r.get("k9_constant_guard") and r.get("run_exc") == "RecursionError":
+            run_hist["known_K9_constant_guard_loop"] = run_hist.get("known_K9_constant_guard_loop", 0) + 1
+        elif r.get("k9_depth_only") and not r.get("run_exc"):
+            # RecursionError under the normal limit, completes under a 40 times larger one: depth only (finding K9)
             run_hist["known_K9_recursion_depth"] = run_hist.get("known_K9_recursion_depth", 0) + 1
+            if not r.get("finished") and r.get("pending") == 0 and not r.get("shapes"):
+                add_violation(res, seen, "C09", "does_not_complete", "accepted program (%s): nothing outstanding but the order did not complete" % r["label"], r["text"], {"label": r["label"]})
         elif r.get("run_exc"):
             if not r.get("shapes"):
                 add_violation(res, seen, "C09", "run_raises_" + r["run_exc"], "accepted program (%s): %s escaped start()/fire_event(): %s" % (r["label"], r["run_exc"], r.get("run_exc_msg")), r["text"], {"label": r["label"]})
